@@ -263,9 +263,9 @@ def ifc_expectations(box, fcs):
     within the same inline formatting context - is removed".  -> [(text box, original text, expected text |
     None)] in tree order, computed before the call.  A preserved run (pre, pre-wrap), an atomic inline or a
     block in flow ends the 'previous character is a collapsible space' state; empty texts and out-of-flow boxes
-    do not touch it.  Not judged (None): text inside out-of-flow boxes (another formatting context; how the
-    code threads the state there is the finding out-of-flow-container-spaces-not-collapsed) and inside boxes
-    process_whitespace does not enter."""
+    do not touch it.  The box itself may be anything - a float, an absolutely positioned box: its inline
+    content is one formatting context all the same.  Not judged (None): text inside out-of-flow *children*
+    (another formatting context) and inside boxes process_whitespace does not enter."""
     from weasyprint.formatting_structure import boxes
     out = []
 
@@ -303,7 +303,7 @@ def ifc_expectations(box, fcs):
                 if child.is_in_normal_flow():
                     state = False
         return state
-    if isinstance(box, boxes.TextBox) or not box.is_in_normal_flow():
+    if isinstance(box, boxes.TextBox):
         return None
     visit(box, fcs)
     return out
@@ -1112,7 +1112,7 @@ def call_tree_function(fn, box):
 class C08(PropCheck):
     id = 'C08'
     extractors = (box_kinds.generate, char_table.generate, content_tables.generate)
-    modules = ('WpModel.Props.C08', 'WpModel.Props.C08Pipeline', 'WpModel.Witness.C08')
+    modules = ('WpModel.Props.C08', 'WpModel.Props.C08Pipeline', 'WpModel.Props.C08Total', 'WpModel.Witness.C08')
     trusted_base = (
         'modelled, not verified: build.process_whitespace / capitalize / inline_in_block / block_in_inline / '
         'anonymous_table_boxes / table_boxes_children / wrap_improper / wrap_table / flex_children / grid_children / '
@@ -1294,7 +1294,8 @@ class C08(PropCheck):
         for float_ in box_kinds.FLOATS:
             for position in box_kinds.POSITIONS:
                 result = computed_values.compute_float(Style(float_, position, False), 'float', float_)
-                sec.add(sx.line('cfloat', float_, position), result, meta={'fn': 'cfloat'}, tags=['float'])
+                sec.add(sx.line('cfloat', float_, position), result,
+                        meta={'fn': 'cfloat', 'float': float_, 'position': position}, tags=['float'])
         for value in values + [('none', 'x'), ('block',), ('inline', 'ruby')]:
             def box_type():
                 return build.BOX_TYPE_FROM_DISPLAY[tuple(value)[:2]].__name__
@@ -1597,6 +1598,8 @@ class C08(PropCheck):
             return blockify_violation(meta['value'], meta['float'], meta['position'], meta['root'], meta['result'])
         if fn == 'content':
             return content_violation(meta['items'], meta['quotes'], meta['depth'])
+        if fn == 'cfloat':
+            return float_violation(meta['float'], meta['position'])
         if fn == 'boxtype':
             if impl.startswith('err:') and not d['model'].startswith('err:'):
                 return f'display {meta["value"]} has no box class'
@@ -1671,6 +1674,11 @@ class C08(PropCheck):
             return self._pipeline_structure_violation(node, result)
         if fn == 'atb' and not has_running(node):
             return tables_violation(result)
+        if fn in ('flex', 'grid') and not has_running(node):
+            # each pass is judged on its own kind of container (the other kind is not processed yet)
+            what = item_violation(result)
+            if what and ((fn == 'flex') == ('flex item' in what)):
+                return what
         if fn == 'iib' and not malformed and not has_running(node):
             return iib_violation(result)
         if fn == 'bii' and not malformed and not has_running(node) and meta.get('prepared'):
@@ -1935,6 +1943,28 @@ class C08(PropCheck):
                         if what and report(what, {'meta': {'fn': 'content', 'items': items, 'quotes': quotes,
                                                            'depth': depth}}, f'content/{quotes}/{depth}/{keywords}'):
                             return found
+        # computed float
+        for float_ in box_kinds.FLOATS:
+            for position in box_kinds.POSITIONS:
+                run.search_stats['evaluations'] += 1
+                what = float_violation(float_, position)
+                if what and report(what, {'meta': {'fn': 'cfloat', 'float': float_, 'position': position}},
+                                   f'cfloat/{float_}/{position}'):
+                    return found
+        # floated / positioned children of flex and grid containers
+        for container in ('FlexBox', 'InlineFlexBox', 'GridBox', 'InlineGridBox'):
+            for letters in ('-', 'f', 'a', 'n'):
+                for kind in ('BlockBox', 'InlineBox', 'InlineBlockBox', 'TextBox'):
+                    kid = [kind, letters, 'normal', [None, None, None], '-', 'x' if kind == 'TextBox' else '', []]
+                    fn = 'flex' if 'Flex' in container else 'grid'
+                    meta = {'fn': fn, 'tree': leaf(container, [kid, leaf('BlockBox')])}
+                    run.search_stats['evaluations'] += 1
+                    try:
+                        what = self._replay_tree(meta)
+                    except Exception as exc:  # noqa: BLE001
+                        what = f'oracle crashed: {type(exc).__name__}: {exc}'
+                    if what and report(what, {'meta': meta}, f'items/{container}/{letters}/{kind}'):
+                        return found
         # blockification and box classes
         for value in box_kinds.display_values():
             for float_ in box_kinds.FLOATS:
@@ -2044,7 +2074,6 @@ class C08(PropCheck):
             'colspan-overlaps-rowspan': finding_colspan_overlap,
             'blockify-inline-table-flex-grid': finding_blockify,
             'running-table-part-crash': finding_running_row,
-            'out-of-flow-container-spaces-not-collapsed': finding_out_of_flow_spaces,
         }
 
     def replay(self, data):
@@ -2065,6 +2094,8 @@ class C08(PropCheck):
             return capitalize_violation(meta['text'], build_mod().capitalize(meta['text']))
         if fn == 'content':
             return content_violation(meta['items'], meta['quotes'], meta['depth'])
+        if fn == 'cfloat':
+            return float_violation(meta['float'], meta['position'])
         if fn == 'thread':
             return threading_violation([tuple(t) for t in meta['texts']], meta.get('fcs', False),
                                        tuple(meta.get('nested', ())))
@@ -2127,6 +2158,38 @@ def blockify_violation(value, float_, position, root, result):
         return None
     return (f'display {" ".join(value)} with float:{float_} position:{position} root:{root} computes to '
             f'{" ".join(result)}, expected {" ".join(expect)}')
+
+
+def float_violation(float_, position):
+    """CSS 2.1 9.7 (and css-gcpm-3 running elements, which leave the flow like absolutely positioned ones): an
+    absolutely positioned, fixed or running element does not float; everything else keeps its float."""
+    from weasyprint.css import computed_values
+
+    class Style:
+        specified = {'float': float_, 'position': ('running()', 'x') if position == 'running' else position}
+        is_root_element = False
+    result = computed_values.compute_float(Style(), 'float', float_)
+    expect = 'none' if position in ('absolute', 'fixed', 'running') else float_
+    if result != expect:
+        return f'float: {float_} with position: {position} computes to {result}, expected {expect}'
+    return None
+
+
+def item_violation(box):
+    """css-flexbox-1 4 ("float and clear do not create floating or clearance of flex item"): every child of a
+    flex container that is not absolutely positioned (or a running / footnote element) is a flex item, floated
+    or not; css-grid-2 6.1: every in-flow child of a grid container is a grid item."""
+    from weasyprint.formatting_structure import boxes
+    for b, parent in walk_real(box):
+        if parent is None or parent.is_running():
+            continue
+        out = b.is_absolutely_positioned() or b.is_running() or b.style['float'] == 'footnote'
+        if isinstance(parent, boxes.FlexContainerBox) and not out and not b.is_flex_item:
+            return (f'a {type(b).__name__} child (float: {b.style["float"]}) of a {type(parent).__name__} is not a '
+                    'flex item')
+        if isinstance(parent, boxes.GridContainerBox) and not out and b.style['float'] == 'none' and not b.is_grid_item:
+            return f'an in-flow {type(b).__name__} child of a {type(parent).__name__} is not a grid item'
+    return None
 
 
 def known_blockify(value, result):
@@ -2560,19 +2623,6 @@ def finding_running_row():
     return False
 
 
-def finding_out_of_flow_spaces():
-    """<div style="float:left">a <span> b</span></div>: the text boxes 'a ' and ' b' (two collapsible spaces
-    in a row) where the same content in normal flow gives 'a ' and 'b'."""
-    from weasyprint.formatting_structure import boxes
-
-    def texts(html):
-        root = formatting_structure(html)
-        return [b.text for b in root.descendants() if isinstance(b, boxes.TextBox)]
-    floated = texts('<div style="float:left">a <span> b</span></div>')
-    in_flow = texts('<div>a <span> b</span></div>')
-    return in_flow == ['a ', 'b'] and floated == ['a ', ' b']
-
-
 def finding_colspan_overlap():
     """<tr><td>a<td rowspan=2>b <tr><td colspan=2>c: slot (1,1) owned by b and c."""
     from weasyprint.formatting_structure import boxes
@@ -2629,10 +2679,9 @@ MANIFEST = {
             'abstraction of real boxes, the fixed alphabet for Unicode categories. Loops that are not structurally '
             'recursive run with fuel; sufficiency of the fuel is proved (C08Pipeline). Known findings: '
             'colspan > 1 under a row-spanning cell shares slots; floated / absolute inline-table, inline-flex, '
-            'inline-grid compute to block flow; running() table parts are never fixed up (AttributeError); inside a '
-            'floated / absolutely positioned box collapsible spaces of sibling runs are not collapsed against each '
-            'other. Repaired and kept as regression cases (corpus/C08/regressions.json, first section): an inline-table '
+            'inline-grid compute to block flow; running() table parts are never fixed up (AttributeError). Repaired and kept as regression cases (corpus/C08/regressions.json, first section): an inline-table '
             'flex / grid item keeps its table wrapper; only CSS white space is ignorable between table parts (the '
             'character class of is_whitespace is the graph of the real function and is proved to be CSS white space); '
-            '::marker { display: none } generates no box.',
+            '::marker { display: none } generates no box; collapsible spaces of sibling runs collapse inside floats and '
+            'positioned boxes too.',
 }
